@@ -447,6 +447,17 @@ func (r *rw) special(n ast.Node) (string, bool) {
 				r.used = true
 				return "vsync.NumCPU()", true
 			}
+			// runtime.GOMAXPROCS(0) only asks how many processors may run Go code: the same environment answer,
+			// owned by the harness.  Any other argument would change the setting: not modelled, refused.
+			if id, ok := sel.X.(*ast.Ident); ok && id.Name == "runtime" && sel.Sel.Name == "GOMAXPROCS" {
+				if len(x.Args) == 1 {
+					if lit, ok := x.Args[0].(*ast.BasicLit); ok && lit.Value == "0" {
+						r.used = true
+						return "vsync.NumCPU()", true
+					}
+				}
+				r.refuse = append(r.refuse, fmt.Sprintf("%s: runtime.GOMAXPROCS with a non-zero argument at %v is not modelled", r.name, r.fset.Position(x.Pos())))
+			}
 		}
 	case *ast.SendStmt:
 		return r.render(x.Chan) + ".Send(" + r.render(x.Value) + ")", true
@@ -563,7 +574,7 @@ func needs(f *ast.File) bool {
 				found = true
 			}
 		case *ast.SelectorExpr:
-			if id, ok := x.X.(*ast.Ident); ok && id.Name == "runtime" && x.Sel.Name == "NumCPU" {
+			if id, ok := x.X.(*ast.Ident); ok && id.Name == "runtime" && (x.Sel.Name == "NumCPU" || x.Sel.Name == "GOMAXPROCS") {
 				found = true
 			}
 		}
